@@ -995,7 +995,22 @@ class FnGen(Gen):
         return params, variadic, required, len(params), names
 
     def fn_stmt(self, d):
-        c = self.r.below(15)
+        c = self.r.below(16)
+        if c == 15:
+            # a bare `return` nested inside the function's last expression (if / loop body): the
+            # implicit return of the function must still be there when the branch is not taken
+            f, p, r1, i = self.fresh("fn"), self.fresh("int"), self.fresh("any"), self.fresh("int")
+            self.declare(r1, "any")
+            ret = ("return", None) if self.chance(2, 3) else ("return", ("int", 5))
+            cond = ("cmp", ("id", p), [(">", ("int", 1))])
+            last = self.pick([
+                ("if", [(cond, ("block", [ret]))], None),
+                ("for", [("tid", i, None)], ("range", ("int", 0), ("id", p), False), ("block", [("if", [(cond, ("block", [ret]))], None)])),
+                ("while", cond, ("block", [ret])),
+            ])
+            fn = ("fn", [(("tid", p, None), None)], None, None, ("block", [("print", ("id", p)), last]))
+            return ("block", [("assign", f, None, fn),
+                              ("assign", r1, None, ("tuple", [("call", ("id", f), [("int", 0)]), ("call", ("id", f), [("int", 3)])]))])
         if c >= 13:
             # packed call arguments: f(a..., b, c...) with 1-5 argument groups of 0-3 elements
             f, r1, xs = self.fresh("fn"), self.fresh("any"), self.fresh("tuple")
